@@ -140,6 +140,18 @@ package octosql
 //@   ensures consistent: a.hash(h) == b.hash(h)
 //@   use List: foldEq(h, a.List, b.List, len(a.List))
 
+// C09/C03/C15: the hash of a key tuple (hash group-by, DISTINCT) is the left fold of the element hashes from the FNV
+// offset basis, so key tuples that are elementwise Compare-equal hash equally.
+//@ func HashManyValues
+//@   requires forall(j, 0, len(values), validV(values[j]))
+//@   pure
+//@   loop 1 invariant fold: 0 <= $k && $k <= len(values) && hash == hfold(14695981039346656037, values, $k)
+//@   ensures fold: result == hfold(14695981039346656037, values, len(values))
+//@ lemma manyHashConsistent(s []Value, t []Value)
+//@   requires len(s) == len(t) && forall(j, 0, len(s), validV(s[j]) && validV(t[j]) && cmp(s[j], t[j]) == 0)
+//@   ensures consistent: HashManyValues(s) == HashManyValues(t)
+//@   use foldEq(14695981039346656037, s, t, len(s))
+
 // ---- C10: the type algebra ----
 // Well-formed types: a known TypeID; only a union has alternatives and unions are flat; alternatives, fields, tuple and list elements are
 // well-formed (recursive predicate over finite type trees).
